@@ -255,7 +255,8 @@ where
     /// assert!(a.out_degree() == 2);
     /// ```
     pub fn degree(&self) -> usize {
-        self.inner.2.read().unwrap().len_outbound() + self.inner.2.read().unwrap().len_inbound()
+        let adjacent = self.inner.2.read().unwrap();
+        adjacent.len_outbound() + adjacent.len_inbound()
     }
 
     /// Connects this node to another node. The connection is created in both
@@ -419,8 +420,8 @@ where
     /// Returns true if the node is an oprhan. Orphan nodes are nodes that have
     /// no connections.
     pub fn is_orphan(&self) -> bool {
-        self.inner.2.read().unwrap().len_outbound() == 0
-            && self.inner.2.read().unwrap().len_inbound() == 0
+        let adjacent = self.inner.2.read().unwrap();
+        adjacent.len_outbound() == 0 && adjacent.len_inbound() == 0
     }
 
     /// Returns true if the node is connected to another node with a given key.
